@@ -539,6 +539,26 @@ pub fn c11(c: &mut Ctx, b: &Budget) {
                 Err(site) => c.check("join-no-panic", false, "join-panic", || site),
             }
         }
+        // a share envelope that is split again under a second policy with the same key (the owner re-shares a returned copy): its
+        // share envelopes carry two share assertions each; a quorum of the second policy joins to the same subject
+        if pi % 2 == 0 {
+            let spec2 = SSKRSpec::new(1, vec![SSKRGroupSpec::new(2, 3).unwrap()]).unwrap();
+            let mut rng3 = c.rng.lib_rng();
+            if let Ok(Ok(sh3)) = guarded(|| flat[0].2.sskr_split_using(&spec2, &ck, &mut rng3)) {
+                let f3: Vec<Envelope> = sh3.into_iter().flatten().collect();
+                c.check("resplit-share-shape", f3.iter().all(|s| s.assertions_with_predicate(known_values::SSKR_SHARE).len() == 2 && s.subject().digest() == e.digest()), "resplit-shape", || f3.first().map(shape).unwrap_or_default());
+                for pair in [[0usize, 1], [1, 2], [2, 0]] {
+                    let refs: Vec<&Envelope> = pair.iter().map(|k| &f3[*k]).collect();
+                    let got = guarded(|| Envelope::sskr_join(&refs));
+                    c.check("join-iff-quorum", matches!(&got, Ok(Ok(j)) if j.is_identical_to(&e)), "join-fails-with-quorum", || format!("a quorum of a re-split share envelope (two share assertions per envelope): {:?}", got.as_ref().map(|r| r.as_ref().map(shape).map_err(|e| e.to_string()))));
+                }
+                let got = guarded(|| Envelope::sskr_join(&[&f3[0]]));
+                let q1 = groups.iter().enumerate().filter(|(g, (t, _))| (if *g == 0 { 1 } else { 0 }) >= *t).count() >= *gt;
+                if !q1 { c.check("join-iff-quorum", matches!(got, Ok(Err(_))), "join-without-quorum", || "one re-split envelope alone joined".into()); }
+                import(c, &f3[0]);
+                c.count("branch:resplit");
+            }
+        }
         // shares mixed from two different splits (identifier collisions regenerated)
         let ck2 = SymmetricKey::new();
         let e2 = Envelope::new("another secret").wrap_envelope();
@@ -629,6 +649,26 @@ pub fn c17(c: &mut Ctx, b: &Budget) {
                 }
                 c.count("branch:forms-of-one-digest-salted");
             }
+        }
+        // a salted add that adds nothing (refused, or given no assertion) leaves no request behind: the next plain adds are plain
+        if i % 3 == 1 {
+            let plain = |x: &Envelope| x.add_assertion("knows", "Bob").add_assertion_envelope(Envelope::new_assertion("k", i as u64)).unwrap();
+            let before = plain(&e);
+            let r1 = guarded(|| e.add_assertion_envelope_salted(Envelope::new("not an assertion"), true).is_err());
+            let after1 = plain(&e);
+            let r2 = guarded(|| e.add_optional_assertion_envelope_salted(None, true).map(|x| x.is_identical_to(&e)).unwrap_or(false));
+            let after2 = plain(&e);
+            let _ = guarded(|| e.add_assertions_salted(&[], true));
+            let after3 = plain(&e);
+            c.check("refused-salted-add", r1 == Ok(true) && r2 == Ok(true), "salted-add-of-nothing", || format!("{:?} {:?}", r1, r2));
+            for (name, a) in [("a refused salted add", &after1), ("a salted add of None", &after2), ("a salted bulk add of nothing", &after3)] {
+                c.check("unsalted-add-deterministic", a.is_identical_to(&before) && a.assertions_with_predicate(known_values::SALT).len() == before.assertions_with_predicate(known_values::SALT).len() && bytes_of(a) == bytes_of(&before), "unsalted-add-salted",
+                    || format!("after {} the next plain adds gave {} instead of {}", name, shape(a), shape(&before)));
+            }
+            let s_after = e.add_salt();
+            let n_new = s_after.assertions().len() - e.assertions().len();
+            c.check("exactly-one-salt-assertion", n_new == 1 && s_after.assertions_with_predicate(known_values::SALT).iter().all(|a| a.is_assertion()), "salt-shape", || format!("add_salt after refused salted adds: {}", shape(&s_after)));
+            c.count("branch:salted-add-of-nothing");
         }
         // fresh threads: salts drawn on threads that have never salted before are as independent as any others
         if i % 4 == 0 {
@@ -803,6 +843,13 @@ pub fn c18(c: &mut Ctx, b: &Budget) {
             c.check("response-rejects-both", Response::try_from(both2.clone()).is_err(), "response-accepts-both-with-duplicate", || format!("an envelope with result AND error assertions was parsed: {}", shape(&both2)));
             let neither = venv.subject();
             c.check("response-rejects-neither", Response::try_from(neither.clone()).is_err(), "response-accepts-neither", || shape(&neither));
+            // neither result nor error, but other assertions on the subject (a note, a date, an application assertion, a decorated one)
+            for extra in [neither.add_assertion(known_values::NOTE, "annotated"), neither.add_assertion("retry-after", 30), neither.add_assertion(known_values::DATE, dcbor::Date::from_timestamp(1_700_000_000.0)).add_assertion(known_values::NOTE, "n"),
+                          neither.add_assertion_salted("x", "y", true), neither.add_assertion(known_values::BODY, "b")] {
+                for via in [extra.clone(), through_bytes(&extra)] {
+                    c.check("response-rejects-neither", Response::try_from(via.clone()).is_err(), "response-accepts-neither", || format!("{}: no result and no error, yet parsed: {}", name, shape(&via)));
+                }
+            }
             let wrong = venv.replace_subject(Envelope::new(CBOR::to_tagged_value(40004u64, id)));
             c.check("response-rejects-wrong-tag", Response::try_from(wrong.clone()).is_err(), "response-accepts-wrong-tag", || shape(&wrong));
             // the subject re-tagged (request, event, an unassigned tag) with its content - ARID or 'Unknown' - left as it is
@@ -842,6 +889,25 @@ pub fn c18(c: &mut Ctx, b: &Budget) {
         match guarded(|| ev.summary()) {
             Ok(sm) => c.check("event-summary", sm.contains(&format!("content {}", i)), "event-summary", || sm.clone()),
             Err(site) => c.check("no-panic", false, "event-summary", || site),
+        }
+        // events whose content is an envelope, in every form an envelope can take (whole-compressed, elided, encrypted, wrapped,
+        // with its subject compressed ...): the content comes back as it went in
+        {
+            let inner = base_envelope(c, 2);
+            let forms: Vec<(&str, Envelope)> = vec![("plain", inner.clone()), ("compressed", inner.compress().unwrap_or(inner.clone())), ("elided", inner.elide()), ("wrapped", inner.wrap_envelope()),
+                ("wrapped-compressed", inner.wrap_envelope().compress().unwrap()), ("subject-compressed", inner.compress_subject().unwrap_or(inner.clone())), ("encrypted", inner.encrypt(&SymmetricKey::new())), ("known-value", Envelope::new(known_values::NOTE))];
+            for (fname, content) in forms {
+                let mut ev2 = Event::<Envelope>::new(content.clone(), id);
+                if i % 2 == 0 { ev2 = ev2.with_note("n"); }
+                let env2: Envelope = ev2.clone().into();
+                for via in [env2.clone(), through_bytes(&env2)] {
+                    match guarded(|| Event::<Envelope>::try_from(via.clone())) {
+                        Ok(Ok(p)) => c.check("event-roundtrip", p == ev2 && p.content().is_identical_to(&content), "event-roundtrip", || format!("content in {} form {} came back as {}", fname, shape(&content), shape(p.content()))),
+                        other => c.check("event-roundtrip", false, "event-roundtrip", || format!("{} content: {:?}", fname, other.map(|r| r.map(|_| ()).map_err(|e| e.to_string())))),
+                    }
+                }
+                c.count(&format!("event-content:{}", fname));
+            }
         }
         let wrong = eenv.replace_subject(Envelope::new(CBOR::to_tagged_value(40004u64, id)));
         c.check("event-rejects-wrong-tag", Event::<String>::try_from(wrong.clone()).is_err(), "event-accepts-wrong-tag", || shape(&wrong));
@@ -908,8 +974,21 @@ pub fn c19(c: &mut Ctx, b: &Budget) {
             ("vendor-not-text", Envelope::new_assertion(known_values::ATTACHMENT, Envelope::new("p").wrap_envelope().add_assertion(known_values::VENDOR, 7))),
             ("not-an-assertion", Envelope::new("plain")),
         ];
-        // the same attachment (same digest, validated above) with the parts validation must read obscured
+        // an attachment assertion that carries assertions of its own (annotated, salted) is not a valid attachment: the accessors
+        // read the envelope itself, so validation must not look through to its subject either
         let mut malformed = malformed;
+        malformed.push(("annotated-attachment", good.add_assertion(known_values::NOTE, "a note")));
+        malformed.push(("salted-attachment", good.add_salt()));
+        for (name, m) in malformed.iter().rev().take(2) {
+            let host = e.add_assertion_envelope(m.clone()).unwrap();
+            for (vf, cf) in [(Some("com.example"), None), (None, Some("conf")), (Some("com.example"), Some("conf")), (Some("nobody"), None)] {
+                let got = guarded(|| host.attachments_with_vendor_and_conforms_to(vf, cf).map(|v| v.len()));
+                c.check("malformed-invalid", matches!(got, Ok(Err(_))), "malformed-attachment-accepted", || format!("{} in a host, filter ({:?},{:?}): {:?}", name, vf, cf, got.as_ref().map(|r| r.as_ref().map_err(|e| e.to_string()))));
+                let got1 = guarded(|| host.attachment_with_vendor_and_conforms_to(vf, cf).map(|a| shape(&a)));
+                c.check("malformed-invalid", matches!(got1, Ok(Err(_))), "malformed-attachment-accepted", || format!("{} in a host, single-result form ({:?},{:?}): {:?}", name, vf, cf, got1.as_ref().map(|r| r.as_ref().map_err(|e| e.to_string()))));
+            }
+        }
+        // the same attachment (same digest, validated above) with the parts validation must read obscured
         {
             let host_ok = e.add_assertion_envelope(good.clone()).unwrap();
             let _ = guarded(|| host_ok.attachments());
@@ -928,7 +1007,7 @@ pub fn c19(c: &mut Ctx, b: &Budget) {
             variant("conforms-assertion-elided", vec![ca.clone()], &mut malformed);
             variant("conforms-value-elided", vec![ca.as_object().unwrap()], &mut malformed);
             variant("wrapped-payload-subject-elided", vec![obj.subject()], &mut malformed);
-            c.count_n("branch:obscured-attachment-variants", malformed.len() as u64 - 7);
+            c.count_n("branch:obscured-attachment-variants", malformed.len() as u64 - 9);
         }
         for (name, m) in &malformed {
             let got = guarded(|| m.validate_attachment());
@@ -1157,6 +1236,10 @@ pub fn c18_model(c: &mut Ctx, b: &Budget) {
             let both2 = c.assign(&format!("add {} {}", both, dup)); c.obs(&format!("parse_response {}", both2));
             let two = c.assign(&format!("add {} {}", rs, dup)); c.obs(&format!("parse_response {}", two));
             let neither = c.assign(&format!("subject {}", rs)); c.obs(&format!("parse_response {}", neither));
+            { let np = c.assign("kv 4"); let nv = gen_leaf(c, &cfg); let na = c.assign(&format!("assertion {} {}", np, nv)); let nn = c.assign(&format!("add {} {}", neither, na)); c.obs(&format!("parse_response {}", nn));
+              let ap = gen_leaf(c, &cfg); let aa = c.assign(&format!("assertion {} {}", ap, nv)); let n2 = c.assign(&format!("add {} {}", nn, aa)); c.obs(&format!("parse_response {}", n2));
+              // the genuine result / error assertion elided in its slot
+              if let Some(re) = c.env(&rs) { if let Some(k) = re.assertions().iter().position(|a| a.is_assertion()) { let t = c.assign(&format!("at {} a{}", rs, k)); let el = c.assign(&format!("elide_set {} rem elide {}", rs, t)); c.obs(&format!("parse_response {}", el)); } } }
             let wt = c.assign(&format!("replace_subject {} {}", rs, wrong_tag)); c.obs(&format!("parse_response {}", wt));
             let kvsub = c.assign(&format!("leaf {}", hex::encode(CBOR::to_tagged_value(40005u64, CBOR::to_tagged_value(40000u64, 99u64)).to_cbor_data())));
             let ws = c.assign(&format!("replace_subject {} {}", rs, kvsub)); c.obs(&format!("parse_response {}", ws));
